@@ -723,12 +723,15 @@ func (m *c16Monitor) Classify(info *pbt.CaseInfo) {
 
 // ---------------------------------------------------------------- generator profile
 
-// c16Genesis: 3-7 validators; half of the cases "round" (every stake a multiple of 40 tokens, so that the
+// c16Genesis: 3-7 validators (one case in six: 13-24); half of the cases "round" (every stake a multiple of 40 tokens, so that the
 // ante head-room of 5 % of the bonded total — and half of it moved by a redelegation — shifts the set's power
 // by exactly 5 %), otherwise uneven stakes incl. 1- and 7-token validators that can leave; equal powers;
 // small MaxValidators; short slashing windows so that absent validators get jailed and leave the set.
 func c16Genesis(t *rapid.T) GenesisCfg {
 	nv := 3 + uni(t, "numValidators", 5)
+	if uni(t, "largeSet", 6) == 0 {
+		nv = 13 + uni(t, "numValidatorsLarge", 12) // 13-24 validators on few power levels: long runs of equal powers
+	}
 	cfg := GenesisCfg{NumValidators: nv, NumUsers: 6 + uni(t, "numUsers", 4), UserBalance: 1_000_000_000_000,
 		SlashWindow: pick(t, "slashWindow", []int64{2, 2, 3, 5}), UnbondingSecs: 21 * 24 * 3600, VotingSecs: 3600}
 	round := uni(t, "round", 2) == 0
